@@ -597,6 +597,11 @@ bool qhasharr_remove_by_idx(qhasharr_t *tbl, int idx) {
     qhasharr_data_t *tbldata = tbl->data;
     qhasharr_slot_t *tblslots = get_slots(tbl);
 
+    if (idx >= tbldata->maxslots) {
+        errno = EINVAL;
+        return false;
+    }
+
     if (tblslots[idx].count == 1) {
         // just remove
         remove_data(tbl, idx);
